@@ -9,7 +9,7 @@ def _trivial(impl):
     return not (m and int(m.group(1)) > 1024 and int(m.group(2)) > 1024)
 
 CONFIG = {
-    "modules": ["GoPlugin.Props.C11", "GoPlugin.Props.StdioConn", "GoPlugin.Instance.C11"],
+    "modules": ["GoPlugin.Props.C11", "GoPlugin.Props.StdioConn", "GoPlugin.Props.Hygiene", "GoPlugin.Instance.C11"],
     "scenario": "C11",
     "signature": _sig,
     "trivial": _trivial,
